@@ -74,6 +74,42 @@ Theorem c08_type_ties_possible_on_arbitrary_arenas :
 Proof. exact sort_types_perm_invariant_refuted. Qed.
 
 
+(* (6) the function-body half of the round-trip fixpoint: the normal form is idempotent, normal forms are exactly its fixed
+   points, an operator whose indices are already the output indices is re-emitted unchanged, and a body in normal form is
+   reproduced exactly (operators AND locations): the emitted operator stream is the stream that was parsed *)
+From WV Require Import Model.ParseFn Model.ParseSpec Model.EmitFn Model.EmitSpec Model.BodySpec Model.Sem Proofs.Codec Proofs.Fixpoint.
+Theorem c08_normal_form_idempotent :
+  forall l : list rt, fst (nf_rt_list false (fst (nf_rt_list false l))) = fst (nf_rt_list false l).
+Proof. exact nf_rt_idem. Qed.
+
+Theorem c08_normal_forms_are_the_fixed_points :
+  forall l : list rt, is_nf l <-> fst (nf_rt_list false l) = l.
+Proof. exact nf_rt_normal. Qed.
+
+Theorem c08_operator_fixed_under_identity_renaming :
+  forall (cx : pctx) (ecx : ectx) (o : wop),
+         maps_id cx ecx -> imm_ok o -> ~ known_big_offset o -> nf_op cx ecx o = WOp o.
+Proof. exact nf_op_fixed. Qed.
+
+Theorem c08_body_fixpoint :
+  forall (cx : pctx) (ecx : ectx) (l : list rt),
+         is_nf l ->
+         Forall (insf cx ecx) (flat_list l) ->
+         map (fun p : N * wins => (snd p, fst p)) (fst (nf_list cx ecx false l)) = flat_list l.
+Proof. exact body_fixpoint. Qed.
+
+Theorem c08_emitted_stream_is_parsed_stream :
+  forall (cx : pctx) (ecx : ectx) (ety : N) (rs : list valty) (l : list rt) (eloc p0 : N),
+         wfl cx 1 l ->
+         (forall o : wop, decode_plain (px_i2id cx) o <> None -> encode_plain (ex_id2i ecx) (dec cx o) <> None) ->
+         is_nf l ->
+         Forall (insf cx ecx) (flat_list l) ->
+         exists (ar : arena) (st : estate) (fuel : nat),
+           parse_body cx ety rs (flat_list l ++ [(WEnd, eloc)]) = Ok ar /\
+           emit_body ecx fuel ar 0 p0 = Ok st /\ out st = map fst (flat_list l ++ [(WEnd, eloc)]).
+Proof. exact body_fixpoint_emitted. Qed.
+
+
 (* (4) the sort calls of the SOURCE (regenerated, Gen/SortKeys.v) are the ones the models implement: used locals by id
    (natural order of LocalId), local functions by (Reverse(size), id), types by their (params, results) order, every
    name-section vector by index, function ranges by id, the DWARF tables by start / address.  A changed key or a dropped
@@ -105,3 +141,8 @@ Print Assumptions c08_functions_iteration_order_free.
 Print Assumptions c08_locals_perm_invariant.
 Print Assumptions c08_names_perm_invariant.
 Print Assumptions c08_type_ties_possible_on_arbitrary_arenas.
+Print Assumptions c08_normal_form_idempotent.
+Print Assumptions c08_normal_forms_are_the_fixed_points.
+Print Assumptions c08_operator_fixed_under_identity_renaming.
+Print Assumptions c08_body_fixpoint.
+Print Assumptions c08_emitted_stream_is_parsed_stream.
